@@ -126,6 +126,20 @@ def post(merged, inconclusive, tier):
 
 
 # --------------------------------------------------------------------------------------- helpers
+def _check(ctx, ok, monitor, **witness):
+    """ctx.check + a note naming every monitor that fired (the evidence keeps only the first witnesses)."""
+    if not ok:
+        ctx.note("fired: " + monitor)
+    return ctx.check(ok, monitor, **witness)
+
+
+def _guarded(ctx, monitor, fn, *a, **k):
+    ok, value = ctx.guarded(monitor, fn, *a, **k)
+    if not ok:
+        ctx.note("fired: " + monitor)
+    return ok, value
+
+
 def _np(x):
     return np.asarray(x.array if hasattr(x, "array") and not isinstance(x, np.ndarray) else x)
 
@@ -374,12 +388,12 @@ def check_back(ctx, aa, monitor, part, back, flip, how, scales=None):
     want_dtype = np.bool_ if exp.dtype == bool else np.float64
     ok = (isinstance(back, klass) and tuple(back.shape_native) == tuple(exp.shape) and got.dtype == want_dtype
           and same(got, exp, part.rtol, ctx))
-    ctx.check(ok, monitor, how=how, flip=flip, cls=part.cls, expected=exp, got=got, got_type=type(back).__name__,
+    _check(ctx, ok, monitor, how=how, flip=flip, cls=part.cls, expected=exp, got=got, got_type=type(back).__name__,
               got_dtype=str(got.dtype), info=part.info, pixel_scales=part.scales)
     if scales is not None:
         ps = back.pixel_scales
         okp = isinstance(ps, tuple) and tuple(float(x) for x in ps) == tuple(part.scales)
-        ctx.check(okp, scales, how=how, cls=part.cls, flip=flip, expected=part.scales, got=repr(ps))
+        _check(ctx, okp, scales, how=how, cls=part.cls, flip=flip, expected=part.scales, got=repr(ps))
 
 
 def check_raw(ctx, where, part, raw, flip, how):
@@ -390,13 +404,13 @@ def check_raw(ctx, where, part, raw, flip, how):
     if part.rtol is not None:      # Imaging PSF: the dataset wrote what it holds; orientation is what is checked
         want = expected_raw(_np(part.obj.native).astype(float), flip)
     ok = raw.dtype.kind == "f" and raw.dtype.itemsize == 8 and raw.shape == want.shape and np.array_equal(raw.astype(np.float64), want)
-    ctx.check(ok, "%s.raw_orientation" % where, how=how, flip=flip, cls=part.cls, expected_raw=want, got_raw=raw, info=part.info)
+    _check(ctx, ok, "%s.raw_orientation" % where, how=how, flip=flip, cls=part.cls, expected_raw=want, got_raw=raw, info=part.info)
     if want.ndim == 2 and orientation_sensitive(want):
         other = np.flipud(want)
-        ctx.check(ok and not np.array_equal(raw.astype(np.float64), other), "flip%d.observed_in_raw_%s" % (flip, where),
+        _check(ctx, ok and not np.array_equal(raw.astype(np.float64), other), "flip%d.observed_in_raw_%s" % (flip, where),
                   how=how, cls=part.cls, expected_raw=want, got_raw=raw)
     if want.ndim == 1 and orientation_sensitive(want):
-        ctx.check(ok, "flip.one_dimensional_not_reversed", how=how, flip=flip, cls=part.cls, expected_raw=want, got_raw=raw)
+        _check(ctx, ok, "flip.one_dimensional_not_reversed", how=how, flip=flip, cls=part.cls, expected_raw=want, got_raw=raw)
 
 
 def read_part(aa, part, path, hdu=0, **kw):
@@ -422,9 +436,9 @@ def feed(ctx, rules, **extra):
     for rule, ok, wit in rules:
         if rule == "saw_write":
             continue
-        if not seen and rule != "confined_to_scratch":
+        if not seen:
             continue
-        ctx.check(ok, "audit." + rule, **dict(wit, **extra))
+        _check(ctx, ok, "audit." + rule, **dict(wit, **extra))
 
 
 # --------------------------------------------------------------------------------------- contracts
@@ -518,7 +532,7 @@ def run_unit(ctx, u):
             key = "%s:flip%d:%d" % (u["cls"], flip, i)
             if not ctx.begin(key):
                 continue
-            ctx.check(conf.instance["general"]["fits"]["flip_for_ds9"] is bool(flip), "config.flag_matches_unit", flip=flip)
+            _check(ctx, conf.instance["general"]["fits"]["flip_for_ds9"] is bool(flip), "config.flag_matches_unit", flip=flip)
             rng = gen.rng_for(ctx.seed, NO, u["ci"], i)
             cdir = os.path.join(root, "c%05d" % i)
             os.mkdir(cdir)
@@ -604,25 +618,26 @@ def file_states(ctx, label, rng, i, flip, root, cdir, parts, writer, reader, cls
                 except Exception as e:
                     err = (e, traceback.format_exc()[-1500:])
         audit_counts(ctx, log)
+        feed(ctx, [audit.rule_confined(log, root)], how=tag, path_argument=repr(args))     # whatever the outcome of the call
         if state == "present_refused":
-            ctx.check(err is not None, "overwrite.refused", how=tag, target=tabs, note="write to an existing path without overwrite did not fail")
+            _check(ctx, err is not None, "overwrite.refused", how=tag, target=tabs, note="write to an existing path without overwrite did not fail")
             intact = all(os.path.exists(tabs[n]) and _read_bytes(tabs[n]) == old[n] for n in names)
-            ctx.check(intact, "overwrite.old_intact", how=tag, target=tabs, exception=repr(err[0]) if err else None)
+            _check(ctx, intact, "overwrite.old_intact", how=tag, target=tabs, exception=repr(err[0]) if err else None)
             for n in names[:1]:   # the first file is the one that refuses; the others are never reached
                 feed(ctx, audit.check_refused_trace(log, root, tabs[n]), how=tag)
             continue
-        if not ctx.check(err is None, "write.succeeds", how=tag, path_argument=repr(args), exception=repr(err[0]) if err else None,
+        if not _check(ctx, err is None, "write.succeeds", how=tag, path_argument=repr(args), exception=repr(err[0]) if err else None,
                          traceback=err[1] if err else None, info=parts[names[0]].info):
             continue
         exists = all(os.path.isfile(tabs[n]) for n in names)
         if state in ("nested_abs", "nested_rel"):
-            ctx.check(exists and all(os.path.isdir(d) for n in names for d in missing[n]), "dirs.created", how=tag, target=tabs,
+            _check(ctx, exists and all(os.path.isdir(d) for n in names for d in missing[n]), "dirs.created", how=tag, target=tabs,
                       missing_before=missing)
         elif state == "bare":
-            ctx.check(exists and sorted(os.listdir(cdir)).count(os.path.basename(tabs[names[0]])) == 1, "bare_name.in_cwd", how=tag,
+            _check(ctx, exists and sorted(os.listdir(cdir)).count(os.path.basename(tabs[names[0]])) == 1, "bare_name.in_cwd", how=tag,
                       cwd=cdir, listing=lambda: sorted(os.listdir(cdir)))
         else:
-            ctx.check(exists, "write.file_exists", how=tag, target=tabs)
+            _check(ctx, exists, "write.file_exists", how=tag, target=tabs)
         if not exists:
             continue
         done_dirs = set()
@@ -640,7 +655,7 @@ def file_states(ctx, label, rng, i, flip, root, cdir, parts, writer, reader, cls
                     # the header claim: the file carries the pixel scale; read it the way the repository reads headers
                     fam = "aniso" if parts[n].scale_family.startswith("aniso") else "iso"
                     if all(_card_exact(s) for s in parts[n].scales):
-                        okc, back = ctx.guarded("read.unexpected_exception", getattr(aa, parts[n].cls).from_primary_hdu, hl[0])
+                        okc, back = _guarded(ctx, "read.unexpected_exception", getattr(aa, parts[n].cls).from_primary_hdu, hl[0])
                         if okc:
                             check_back(ctx, aa, "roundtrip.file_then_primary_hdu.%s" % parts[n].cls, parts[n], back, flip, tag,
                                        scales="pixel_scale.file_header.%s" % fam)
@@ -650,15 +665,15 @@ def file_states(ctx, label, rng, i, flip, root, cdir, parts, writer, reader, cls
             if state == "absent":
                 fresh[n] = data_bytes
             if state == "present_overwrite":
-                ctx.check(nh == 1 and n in fresh and data_bytes == fresh[n], "overwrite.replaced", how=tag, part=n, hdus_in_file=nh,
+                _check(ctx, nh == 1 and n in fresh and data_bytes == fresh[n], "overwrite.replaced", how=tag, part=n, hdus_in_file=nh,
                           size=len(data_bytes), size_of_fresh_write=len(fresh.get(n, b"")), old_size=len(old[n]))
                 ctx.classes["old_file_%s_than_new" % ("larger" if len(old[n]) > len(data_bytes) else "not_larger")] += 1
             else:
-                ctx.check(nh == 1, "write.single_hdu", how=tag, part=n, hdus_in_file=nh)
+                _check(ctx, nh == 1, "write.single_hdu", how=tag, part=n, hdus_in_file=nh)
         # the repository reads it back (must not modify anything)
         with _cwd(cwd):
             with audit.recording() as rlog:
-                okr, backs = ctx.guarded("read.unexpected_exception", reader, args)
+                okr, backs = _guarded(ctx, "read.unexpected_exception", reader, args)
         audit_counts(ctx, rlog)
         feed(ctx, audit.check_readonly_trace(rlog), how=tag)
         if okr:
@@ -679,7 +694,7 @@ def multiext(ctx, label, rng, i, flip, cdir, slots, reader):
         for k, (n, p) in enumerate(slots):
             check_raw(ctx, "file", p, np.array(hl[k].data), flip, "multiext|hdu=%d" % k)
     with audit.recording() as rlog:
-        okr, backs = ctx.guarded("read.unexpected_exception", reader, path, {n: k for k, (n, p) in enumerate(slots)})
+        okr, backs = _guarded(ctx, "read.unexpected_exception", reader, path, {n: k for k, (n, p) in enumerate(slots)})
     audit_counts(ctx, rlog)
     feed(ctx, audit.check_readonly_trace(rlog), how="multiext")
     if okr:
@@ -699,19 +714,19 @@ def nontrivial(part):
 def case_single(ctx, cls, rng, i, flip, root, cdir):
     aa = ctx.aa
     klass = getattr(aa, cls)
-    okb, part = ctx.guarded("build.unexpected_exception", build_part, aa, cls, rng, i)
+    okb, part = _guarded(ctx, "build.unexpected_exception", build_part, aa, cls, rng, i)
     if not okb:
         return
     tags = []
     fam = "aniso" if part.scale_family.startswith("aniso") else "iso"
     # ---- HDU path
-    okh, h = ctx.guarded("write.succeeds", lambda: part.obj.hdu_for_output)
+    okh, h = _guarded(ctx, "write.succeeds", lambda: part.obj.hdu_for_output)
     if okh:
         tag = "%s|flip%d|hdu|in_memory" % (cls, flip)
         tags.append(tag)
         check_raw(ctx, "hdu", part, np.asarray(h.data), flip, tag)
         with audit.recording() as rlog:
-            okr, back = ctx.guarded("read.unexpected_exception", klass.from_primary_hdu, h)
+            okr, back = _guarded(ctx, "read.unexpected_exception", klass.from_primary_hdu, h)
         audit_counts(ctx, rlog)
         feed(ctx, audit.check_readonly_trace(rlog), how=tag)
         if okr:
@@ -726,9 +741,9 @@ def case_single(ctx, cls, rng, i, flip, root, cdir):
         H, W = m.shape
         p = os.path.join(cdir, "absent", "mask2d_main.fits")
         if os.path.isfile(p):
-            oki, inv = ctx.guarded("read.unexpected_exception", read_part, aa, part, p, invert=True)
+            oki, inv = _guarded(ctx, "read.unexpected_exception", read_part, aa, part, p, invert=True)
             if oki:
-                ctx.check(_np(inv).dtype == np.bool_ and np.array_equal(_np(inv), ~m), "mask2d.invert", flip=flip, mask=m, got=_np(inv))
+                _check(ctx, _np(inv).dtype == np.bool_ and np.array_equal(_np(inv), ~m), "mask2d.invert", flip=flip, mask=m, got=_np(inv))
             a, b = int(rng.integers(0, 3)), int(rng.integers(0, 3))
             if a == b == 0:
                 a = 1
@@ -737,14 +752,14 @@ def case_single(ctx, cls, rng, i, flip, root, cdir):
                 if min(new) < 1:
                     ctx.skipped["mask2d.trim_leaves_nothing"] += 1
                     continue
-                okz, rz = ctx.guarded("read.unexpected_exception", read_part, aa, part, p, resized_mask_shape=new)
+                okz, rz = _guarded(ctx, "read.unexpected_exception", read_part, aa, part, p, resized_mask_shape=new)
                 if okz:
                     g = _np(rz)
                     if grow:
                         ok = g.shape == new and np.array_equal(g[a:a + H, b:b + W], m)
                     else:
                         ok = g.shape == new and np.array_equal(g, m[a:H - a, b:W - b])
-                    ctx.check(ok, "mask2d.resized", flip=flip, mask=m, new_shape=new, got=g)
+                    _check(ctx, ok, "mask2d.resized", flip=flip, mask=m, new_shape=new, got=g)
                     tags.append("Mask2D|flip%d|str_abs|read_resized_%s" % (flip, "larger" if grow else "smaller"))
             tags.append("Mask2D|flip%d|str_abs|read_invert" % flip)
     # ---- multi-extension: this object + siblings of other shapes, every one read with its hdu index
@@ -765,7 +780,7 @@ def case_single(ctx, cls, rng, i, flip, root, cdir):
 
 def case_imaging(ctx, rng, i, flip, root, cdir):
     aa = ctx.aa
-    okb, built = ctx.guarded("build.unexpected_exception", build_imaging, aa, rng, i)
+    okb, built = _guarded(ctx, "build.unexpected_exception", build_imaging, aa, rng, i)
     if not okb:
         return
     ds, parts, masked = built
